@@ -1,5 +1,6 @@
 import I18n.Lemmas.PyFmtReasons
 import I18n.Lemmas.PyFmtTables
+import I18n.Lemmas.PyFmtWarn
 /-!
 # C12 — the Python %-format parser is consistent with CPython's `%` operator
 
@@ -176,6 +177,17 @@ theorem reason_true {s : List Char} {e : PErr} (h : parse s = .error e) :
   ⟨fun he => width_reason' (he ▸ h), fun he => precision_reason' (he ▸ h), fun he => mixture_reason' (he ▸ h),
     fun he => mismatch_reason' (he ▸ h)⟩
 
+/-- **Warnings are inert**: recording them (the real code) or not changes neither acceptance, nor the error class, nor the
+    argument lists, nor the items; and with recording off nothing is recorded. -/
+theorem warnings_inert (s : List Char) :
+    (parse s).map Result.strip = parseW false s ∧ ∀ r, parseW false s = .ok r → r.warnings = [] := by
+  refine ⟨parseW_strip true s, fun r hr => ?_⟩
+  have h := parseW_strip false s
+  rw [hr] at h
+  simp only [Except.map, Except.ok.injEq] at h
+  have := congrArg Result.warnings h
+  exact this.symm
+
 /-! ## Non-vacuity -/
 
 /-- named specifications with a nested-parenthesis key, and `%%` -/
@@ -211,6 +223,8 @@ example : format "%!".toList (.tuple [.int 1]) = .error .unsupportedChar := by r
 /-- outside the domain: the parser types `%5%` as consuming nothing, CPython 3.12 rejects it -/
 example : (parse "%5%".toList).map (·.seq) = .ok [] := by rfl
 example : format "%5%".toList (.tuple []) = .error .notEnoughArgs := by rfl
+example : (parse "%-05.3d".toList).map (·.warnings) = .ok [.RedundantFlag, .RedundantFlag] := by rfl
+example : (parseW false "%-05.3d".toList).map (·.warnings) = .ok [] := by rfl
 example : (directives "a%(k)-5d%%%*s".toList).map (fun d => (d.key.map String.ofList, d.flags, d.width, d.conv)) =
     [(some "k", ['-'], .num 5, 'd'), (none, [], .num 0, '%'), (none, [], .star, 's')] := by rfl
 
